@@ -7,6 +7,14 @@ PENDING = "check not built yet in this session (construction order: DESIGN.md se
 NOT_APPLICABLE = {("C%02d" % i): PENDING for i in range(1, 21)}
 
 TEXT = {
+    "C16": {
+        "text": "Write/read round trip for every representable length and every fragmentation of the stream (io.ReadFull is modelled over an arbitrary list of chunks), "
+                "the documented format of each header, refusal of every unrepresentable length and safety of ReadFrom on arbitrary bytes with early end are "
+                "theorems about the model of network/*.go; model and library are compared on all lengths -2..70000, all two-byte contents and all split points.",
+        "design_ref": "DESIGN.md section 6 C16",
+        "note": "Trusted: Coq kernel, hand-written model of network/*.go and of io.ReadFull over chunked readers (validated by correspondence), extraction/driver, Go harness.",
+        "technique": "Rocq theorems over a Gallina model + differential correspondence",
+    },
     "C06": {
         "text": "Round trip with exact width, alphabet and arbitrary trailing bytes, 'EncodeLength fails iff', the decode bounds, exact read and rejection of short / "
                 "non-numeral prefixes are theorems for all six families with any positive digit count, the fixed prefixers and BerTLV, for every Go int n >= 0 "
